@@ -1039,6 +1039,29 @@ def tail_returns(fn):
     return n
 
 
+def unwrap_trivial_arg_blocks(fn):
+    """`f({ e })` -> `f(e)`: a statement-less block used as an operand of a call is its value"""
+    n = 0
+    for x in _walk(fn.get("body")):
+        if x.get("k") in ("call", "mcall"):
+            for i, a in enumerate(x["args"]):
+                u = _unblk(a)
+                if u is not a and u is not None and not (isinstance(a, dict) and a.get("unsafe")):
+                    x["args"][i] = u
+                    n += 1
+            if x["k"] == "mcall":
+                u = _unblk(x["recv"])
+                if u is not x["recv"] and u is not None:
+                    x["recv"] = u
+                    n += 1
+        elif x.get("k") == "ref" and "x" in x:
+            u = _unblk(x["x"])
+            if u is not x["x"] and u is not None:
+                x["x"] = u
+                n += 1
+    return n
+
+
 def lift_arg_blocks(fn, types):
     """D14  a block with statements used as an argument (or receiver) of a call is lifted around the call:
         f(a, { s1; s2; t })   ->   { s1; s2; f(a, t) }
@@ -1362,6 +1385,35 @@ def mut_ref_aliases(fn):
     return n
 
 
+def range_for_each(fn):
+    """D20  `(a..b).for_each(|i| body)` as a statement  ->  `for i in a..b { body }`   (the closure does not `return`)"""
+    n = 0
+    for b in list(_walk(fn.get("body"))):
+        if b.get("k") != "block":
+            continue
+        items = list(b["stmts"]) + ([b["tail"]] if b.get("tail") is not None else [])
+        for i, s in enumerate(items):
+            s0 = _unblk(s)
+            if not (s0 is not None and s0.get("k") == "mcall" and s0.get("name") == "for_each" and len(s0["args"]) == 1):
+                continue
+            rng = _unblk(s0["recv"])
+            cl = _unblk(s0["args"][0])
+            if not (rng is not None and rng.get("k") == "struct" and rng.get("path") == "std::ops::Range" and cl is not None and cl.get("k") == "closure"
+                    and len(cl.get("params") or []) == 1 and cl["params"][0].get("k") in ("bind", "wild")):
+                continue
+            if any(y.get("k") == "ret" for y in _walk(cl["body"])):
+                continue
+            body = cl["body"] if cl["body"].get("k") == "blk" else {"k": "blk", "b": {"k": "block", "stmts": [cl["body"]], "tail": None}, "line": cl.get("line")}
+            lp = {"k": "for", "pat": cl["params"][0], "iter": rng, "body": body, "loop_id": 8000000 + int(cl.get("id", 0) or 0), "line": s0.get("line"), "from_for_each": True}
+            if i < len(b["stmts"]):
+                b["stmts"][i] = lp
+            else:
+                b["tail"] = None
+                b["stmts"].append(lp)
+            n += 1
+    return n
+
+
 _CTR = [0]
 
 
@@ -1374,12 +1426,14 @@ def run(facts):
             continue
         counts["debug_asserts"] += strip_debug_asserts(fn["body"])
         counts["tail_returns"] = counts.get("tail_returns", 0) + tail_returns(fn)
+        counts["range_for_each"] = counts.get("range_for_each", 0) + range_for_each(fn)
         counts["compound_assignments"] = counts.get("compound_assignments", 0) + compound_assignments(fn)
         counts["mut_ref_aliases"] = counts.get("mut_ref_aliases", 0) + mut_ref_aliases(fn)
         counts["while_loops"] = counts.get("while_loops", 0) + while_to_for(fn, facts["types"])
         counts["option_combinators"] = counts.get("option_combinators", 0) + option_combinators(fn)
         counts["let_else"] += let_else_to_match(fn["body"])
         counts["lifted_arg_blocks"] = counts.get("lifted_arg_blocks", 0) + lift_arg_blocks(fn, facts["types"])
+        counts["trivial_arg_blocks"] = counts.get("trivial_arg_blocks", 0) + unwrap_trivial_arg_blocks(fn)
         counts["flattened_blocks"] = counts.get("flattened_blocks", 0) + flatten_blocks(fn)
         counts["split_tuple_lets"] = counts.get("split_tuple_lets", 0) + split_tuple_lets(fn["body"])
         counts["move_aliases"] = counts.get("move_aliases", 0) + move_aliases(fn)
